@@ -38,9 +38,10 @@ def obligations(tier):
     for n in ((2, 3, 4) if not th else (2, 3, 4, 5)):
         for k in (2, 3):
             if k > n: continue
+            if n == 5 and k == 3: continue      # the real-arithmetic VC of these (fully concrete) cases comes out vacuous under the nonzero-divisor preconditions although the native run passes: not claimed
             for labs in itertools.product(range(k), repeat=n):
                 if len(set(labs)) != k: continue
                 if not th and n == 4 and labs[0] != 0: continue
                 obs.append(Ob(id=f'stats/n{n}k{k}/labels{"".join(map(str, labs))}', harness='C08/stats.c', tus=T, defs={'HP_N': n, 'HP_K': k, 'HP_LABELS': ','.join(map(str, labs))},
-                              engine='real', unwind=n + 4, timeout=to, clause='perfect predictions give AUC = 1', stubs=R, real={'nomissing': True, 'tactics': ('default', 'nlsat')}))
+                              engine='real', unwind=n + 8, timeout=to, clause='perfect predictions give AUC = 1', stubs=R, real={'nomissing': True, 'tactics': ('default', 'nlsat')}))
     return obs
